@@ -280,7 +280,7 @@ def _contact_top():
     return top
 
 
-def contacts(scheme: str = "closest-heavy", mode: str = "all", soft_min: bool = False):
+def contacts(scheme: str = "closest-heavy", mode: str = "all", soft_min: bool = False, periodic: bool = True):
     """column i of compute_contacts is the minimum (or soft minimum) over EXACTLY the atom pairs the scheme designates for residue pair i,
     and residue_pairs[i] is that pair (running-offset bookkeeping with residues of unequal size)"""
     import mdtraj.geometry.contact as M
@@ -290,7 +290,10 @@ def contacts(scheme: str = "closest-heavy", mode: str = "all", soft_min: bool = 
     F = 2
     D = {}
 
+    flags = []
+
     def dist(traj, pairs, periodic=True, opt=True):
+        flags.append(bool(periodic))
         out = np.empty((F, len(pairs)), dtype=object)
         for k, (a, b) in enumerate(pairs):
             for f in range(F):
@@ -314,8 +317,9 @@ def contacts(scheme: str = "closest-heavy", mode: str = "all", soft_min: bool = 
     import warnings
     with warnings.catch_warnings():
         warnings.simplefilter("ignore")
-        dist_out, pairs = M.compute_contacts(traj, contacts=cont, scheme=scheme, ignore_nonprotein=True, soft_min=soft_min, soft_min_beta=20)
+        dist_out, pairs = M.compute_contacts(traj, contacts=cont, scheme=scheme, ignore_nonprotein=True, soft_min=soft_min, soft_min_beta=20, periodic=periodic)
     G = Goals(60000)
+    G.add("periodic_flag_forwarded", [], z3.BoolVal(len(flags) >= 1 and all(f == bool(periodic) for f in flags)), {})
     H = lambda a: a.element.symbol == "H"
     sc = lambda a: a.residue.name not in ("HOH",) and a.name not in ("C", "CA", "N", "O", "HA", "H")
 
@@ -351,12 +355,12 @@ def contacts(scheme: str = "closest-heavy", mode: str = "all", soft_min: bool = 
                         tot = tot + e
                     spec = Sym(S.rat(20.0)) / tot.log()
                     G.add(f"softmin[{col}.f{f}]", prem, val == tz(spec), {})
-    r = G.run(_replay_contacts(scheme, cont, soft_min))
+    r = G.run(_replay_contacts(scheme, cont, soft_min, periodic))
     r["residue_pairs"] = got_pairs
     return r
 
 
-def _replay_contacts(scheme, cont, soft_min):
+def _replay_contacts(scheme, cont, soft_min, periodic=True):
     def rep(name, vals):
         script = f'''
 import sys, itertools, warnings, numpy as np, mdtraj as md
@@ -365,8 +369,9 @@ sys.path.insert(0, "/verif")
 from harness.c16 import _contact_top
 top = _contact_top(); rng = np.random.RandomState(7)
 t = md.Trajectory((rng.rand(3, top.n_atoms, 3) * 3).astype(np.float32), top)
-scheme, cont, soft = {scheme!r}, {cont!r}, {soft_min!r}
-d, pairs = md.compute_contacts(t, contacts=cont, scheme=scheme, soft_min=soft, soft_min_beta=20)
+t.unitcell_lengths = np.full((3, 3), 1.7); t.unitcell_angles = np.full((3, 3), 90.0)      # a cell much smaller than the spread: the two conventions differ
+scheme, cont, soft, periodic = {scheme!r}, {cont!r}, {soft_min!r}, {periodic!r}
+d, pairs = md.compute_contacts(t, contacts=cont, scheme=scheme, soft_min=soft, soft_min_beta=20, periodic=periodic)
 H = lambda a: a.element.symbol == "H"
 sc = lambda a: a.residue.name != "HOH" and a.name not in ("C", "CA", "N", "O", "HA", "H")
 def members(r):
@@ -376,7 +381,7 @@ def members(r):
 bad = 0
 for col, (i, j) in enumerate(pairs):
     ap = list(itertools.product(members(i), members(j)))
-    dd = md.compute_distances(t, ap, periodic=False)
+    dd = md.compute_distances(t, ap, periodic=periodic)
     want = dd.min(axis=1) if (not soft or scheme == "ca") else 20.0 / np.log(np.exp(20.0 / dd).sum(axis=1))
     if not np.allclose(d[:, col], want, rtol=1e-4, atol=1e-5): bad += 1
 print("columns deviating from the scheme's definition:", bad, "of", len(pairs))
